@@ -438,8 +438,8 @@ def check(run):
                 'distances of the stored transformed centers (rel 1e-9), and predictions of fits on c*X at c*X_test vs the unscaled fit '
                 '(rel 1e-6 + first-order effect of the distance rounding on the selected solve); a case is non-trivial when the adapted bandwidth differs from the base by more than 0.1 %')
     run.assumptions = ['training sets below the 5,000-row subsample limit (no random subsampling of the distance matrix)',
-                       'pairwise distinct rows: the median distance is >= 1e-14 at every scale (the `< 1e-14 -> 1` guard of _adapt_bandwidth does not fire)',
-                       'early_stop_rfm=False, solver "solve", reg=1e-3, float64 tensors, CPU',
+                       'at least 8 distinct rows (2-3 replicates of design points allowed): the median distance is >= 1e-14 at every scale (the `< 1e-14 -> 1` guard of _adapt_bandwidth does not fire)',
+                       'early_stop_rfm=False, solver "solve" (plus a logistic-solver family checked for the stored bandwidth only), reg=1e-3, float64 tensors, CPU',
                        'in about a third of the fits the validation scores are scripted (same script at every scale) to place the selected iterate first / in the middle / last',
                        'theorem fit_scale_invariant_concrete covers the whole fit with the AGOP step of Model/AgopStep.lean (1e-30 jitter idealised to 0, no centring, all centers used); that model is compared with RFM.fit_M in the family agop-step (general position, n <= 24, light kernel with q >= 1.3)',
                        'if rescaling changes the selected iterate only because two validation scores agree to 1e-7 relative, the case is counted as near-tie, not as a failure']
